@@ -38,8 +38,9 @@ NamesLetter  == [x \in 1..N |-> <<"a", "b", "c", "d", "e">>[x]]
 NamesWord    == [x \in 1..N |-> <<"ab", "ba", "abc", "x1", "y_2">>[x]]
 NamesZero    == [x \in 1..N |-> ToString(x - 1)]            \* the integer 0 is an element like any other
 NamesDash    == [x \in 1..N |-> <<"--1", "---42", "-a", "a-b", "x--">>[x]]     \* not readable as integers
-NameSets == <<NamesInt, NamesBig, NamesLetter, NamesWord, NamesZero, NamesDash>>
-NameKinds == <<"ints", "big", "letters", "words", "zero", "dash">>
+NamesDigitLead == [x \in 1..N |-> <<"1a", "2b", "30x", "4th", "5S">>[x]]    \* every name starts with a digit, none is a number
+NameSets == <<NamesInt, NamesBig, NamesLetter, NamesWord, NamesZero, NamesDash, NamesDigitLead>>
+NameKinds == <<"ints", "big", "letters", "words", "zero", "dash", "digitlead">>
 
 \* the text determines the ranking: no two different rankings have a common rendering under the same names
 SmallVariants == [brace : BOOLEAN, lead : {""}, trail : {""}, prefix : {"", "r 1 : "}, sep : {", ", ","}]
@@ -51,7 +52,7 @@ RkJson(r) == [k \in DOMAIN r |-> SetToSortSeq(r[k], LAMBDA a, b : a < b)]
 
 Rendered ==
     { [text |-> Render(r, v, NameSets[k]), r |-> RkJson(r), naming |-> NameKinds[k]] :
-        r \in PartialRankings(1..N), v \in Variants, k \in 1..6 }
+        r \in PartialRankings(1..N), v \in Variants, k \in 1..7 }
 
 Alphabet == {"[", "]", "{", "}", ",", ":", " ", "a", "1"}
 Strings(len) == [1..len -> Alphabet]
@@ -59,8 +60,8 @@ Strings(len) == [1..len -> Alphabet]
 Export ==
     CASE What = "rendered" -> ndJsonSerialize(IOEnv.OUT_FILE, SetToSeq(Rendered))
       [] What = "strings"  -> ndJsonSerialize(IOEnv.OUT_FILE, SetToSeq(UNION {Strings(l) : l \in 0..MaxLen}))
-      [] What = "theorems" -> \A k \in 1..6 : Injective(NameSets[k], Variants)
-      [] What = "theorems_small" -> \A k \in 1..6 : Injective(NameSets[k], SmallVariants)
+      [] What = "theorems" -> \A k \in 1..7 : Injective(NameSets[k], Variants)
+      [] What = "theorems_small" -> \A k \in 1..7 : Injective(NameSets[k], SmallVariants)
 
 ASSUME Export
 =============================================================================
